@@ -6,10 +6,44 @@ ID = "C23"
 COQ_REQUIRE = ["M_Dist"]
 COQ_CASE_TYPE = "M_Dist.case"
 COQ_CHECK = "M_Dist.check_case"
-OBLIGATIONS = []
+OBLIGATIONS = ["valid_or_impossible_oneagent", "valid_or_impossible_gh_cgdp",
+               "valid_or_impossible_heur_comhost", "must_host_ignored_refuted", "adhoc_secp_refuted"]
 N_QUICK, N_THOROUGH = 400, 6000
 PARALLEL = 8
 SHARD = 100
+
+RULE = ("seeded random DCOPs (1-4 binary variables, 0-4 constraints of arity 1-3) turned into a computation "
+        "graph by the REAL builder of one of the four graph models; 1-4 agents (oneagent: 1-6) with tight / "
+        "ample / mixed / tiny capacities, default-0 / positive / some-zero / mixed hosting costs, routes; "
+        "footprints 0-6, communication loads; well-formed must_host hints (45%) and host_with hints (adhoc, "
+        "25%); method drawn among oneagent, adhoc, gh_cgdp, heur_comhost, oilp_cgdp, ilp_fgdp (factor graphs "
+        "only) and called through the API with random/shuffle/choice replaced by the case's draws and GLPK by "
+        "PuLP's CBC in the driver process; non-trivial = at least 2 computations; distinct = distinct case JSON")
+MODELLED = ("theorems (all instances, all rankings/draws, termination of the backtracking loop included): "
+            "oneagent, gh_cgdp, heur_comhost return a mapping hosting every computation once on declared agents "
+            "within capacity, or ImpossibleDistributionException, never another error; refuted: must-host hints "
+            "(ignored by these methods), adhoc's SECP loop capacity. adhoc (3 loops, hints, retry) is modelled and "
+            "compared on every case but its validity is not a Coq theorem; the ILP methods are checked here by the "
+            "oracle only (their model and theorems are C24's); the distribute command (YAML front end) is not run.")
+META = dict(
+    level_text=("Proof (Coq) that in the executable model of oneagent, gh_cgdp and heur_comhost (faithful to "
+                "the code incl. zero-hosting-cost pinning, stale candidate lists after a backtrack, random "
+                "tie-breaks as an oracle, the float ranking as a parameter) every run ends with a mapping hosting "
+                "every computation exactly once on a declared agent within every capacity, or with "
+                "ImpossibleDistributionException - for all graphs, agents, costs and draws; the must-host clause "
+                "is refuted for these methods and recorded as a known finding. adhoc is modelled and tied by the "
+                "differential run only; ILP methods by the oracle + C24. Model tied to /repo by a differential run "
+                "(real code vs vm_compute, PrimFloat for the 0.8/0.2 cost) on every check."),
+    level_note=("Partial: adhoc validity and the must-host clause are not theorems (adhoc: correspondence + oracle; "
+                "must-host: refuted, finding C23-must-host-ignored). Hypotheses: unique names (wf); heur_comhost: "
+                "capacities >= 0. The `pydcop distribute` command line is not exercised (only its timeout keyword "
+                "was repaired). Trusted: Coq kernel/vm_compute incl. primitive floats in the correspondence only "
+                "(no theorem depends on them), M_Dist.v, harness, PuLP CBC."),
+    technique="Coq proof over executable Gallina model + differential correspondence run + brute-force validity oracle",
+    design_ref="DESIGN.md §5 C23",
+)
+TRUSTED = ["PuLP's bundled CBC substituted for the absent GLPK in the driver process (ILP methods)",
+           "Coq primitive floats (binary64) in the correspondence evaluation of the 0.8/0.2 cost ranking only"]
 
 METHODS = ["oneagent", "adhoc", "gh_cgdp", "heur_comhost", "oilp_cgdp", "ilp_fgdp"]
 CAPACITY_AWARE = {"adhoc", "gh_cgdp", "heur_comhost", "oilp_cgdp", "ilp_fgdp"}
@@ -52,49 +86,137 @@ def run_impl(c):
         res = dict(mapping=dc.canon_mapping(dist))
     except Exception as e:
         res = dict(error=type(e).__name__, msg=str(e)[:200])
-    return dict(graph=view, result=res, shuffles=rnd.shuffles, choices=rnd.choices, nrnd=rnd.k)
+    hw = {}
+    if hints is not None:
+        for n in view["nodes"]:
+            l = hints.host_with(n[0])
+            if l:
+                hw[n[0]] = l
+    return dict(graph=view, result=res, shuffles=rnd.shuffles, choices=rnd.choices, nrnd=rnd.k,
+                host_with=hw)
 
 
 # ------------------------------------------------------------------ oracle (independent)
-def oracle(c, o):
+def violations(c, o):
+    """every way the observed behaviour violates C23 (list of strings)"""
     res = o["result"]
     if "error" in res:
         if res["error"] in ALLOWED_ERRORS:
-            return None
-        return "%s raised %s (%s): neither a mapping nor a declared impossibility" % (
-            c["method"], res["error"], res.get("msg", ""))
+            return []
+        return ["%s raised %s (%s): neither a mapping nor a declared impossibility" % (
+            c["method"], res["error"], res.get("msg", ""))]
+    out = []
     m = res["mapping"]
     comps = [n[0] for n in o["graph"]["nodes"]]
     declared = {a["name"]: a for a in c["agents"]}
     hosted = [x for a in m for x in m[a]]
     for a in m:
         if a not in declared:
-            return "mapping uses undeclared agent %s" % a
+            out.append("mapping uses undeclared agent %s" % a)
     for x in comps:
         k = hosted.count(x)
         if k != 1:
-            return "computation %s hosted %d times" % (x, k)
+            out.append("computation %s hosted %d times" % (x, k))
     for x in hosted:
         if x not in comps:
-            return "mapping hosts unknown computation %s" % x
+            out.append("mapping hosts unknown computation %s" % x)
     for a, lst in (c.get("must_host") or {}).items():
         for x in lst:
             if x not in m.get(a, []):
-                return "must-host hint not honoured: %s must be on %s" % (x, a)
+                out.append("must-host hint not honoured: %s must be on %s" % (x, a))
     if c["method"] in CAPACITY_AWARE:
         for a, lst in m.items():
-            used = sum(c["fp"][x] for x in lst)
-            if used > declared[a]["capacity"]:
-                return "capacity exceeded on %s: footprint %d > capacity %d" % (a, used, declared[a]["capacity"])
-    return None
+            if a in declared:
+                used = sum(c["fp"].get(x, 0) for x in lst)
+                if used > declared[a]["capacity"]:
+                    out.append("capacity exceeded on %s: footprint %d > capacity %d"
+                               % (a, used, declared[a]["capacity"]))
+    return out
 
 
-def coq_case(c, o):
-    return None
+def oracle(c, o):
+    v = violations(c, o)
+    return "; ".join(v) if v else None
+
+
+# ------------------------------------------------------------------ known findings
+HINT_BLIND = {"oneagent", "gh_cgdp", "heur_comhost", "oilp_cgdp", "ilp_fgdp"}
+
+
+def secp_factors(c, o):
+    """factors that adhoc's first ('secp') loop handles: not must-hosted, host_with == one variable"""
+    if c["graph"] != "factor_graph":
+        return []
+    must = {x for l in (c.get("must_host") or {}).values() for x in l}
+    hw = o.get("host_with") or {}
+    return [f for f, l in hw.items()
+            if f[0] == "c" and f not in must and len(l) == 1 and l[0][0] == "v"]
 
 
 def classify(c, o, msg):
+    v = violations(c, o)
+    if not v:
+        return None
+    if c["method"] in HINT_BLIND and c.get("must_host") and \
+            all(x.startswith("must-host hint not honoured") for x in v):
+        return "C23-must-host-ignored"
+    if c["method"] == "adhoc":
+        sf = secp_factors(c, o)
+        res = o["result"]
+        if sf and res.get("error") == "ValueError" and "Inconsistent distribution" in res.get("msg", ""):
+            return "C23-adhoc-secp-hostwith"
+        if sf and "mapping" in res:
+            m = res["mapping"]
+            hw = o.get("host_with") or {}
+            touched = {a for a, l in m.items() if any(f in l or hw[f][0] in l for f in sf)}
+            if all(x.startswith("capacity exceeded on ") and x.split()[3].rstrip(":") in touched for x in v):
+                return "C23-adhoc-secp-hostwith"
     return None
+
+
+# ------------------------------------------------------------------ Gallina printer
+COQ_METHOD = {"oneagent": "MOneAgent", "gh_cgdp": "MGhCgdp", "heur_comhost": "MHeurComhost",
+              "adhoc": "MAdhoc"}
+
+
+def zz(d, kf, vf=q.z):
+    return q.lst([q.pair(kf(k), vf(v)) for k, v in d])
+
+
+def inst_term(c, o):
+    nodes = q.lst(["(mkNode %s %s %s %s)" % (q.z(dc.cid(n)), q.z(k), q.z(c["fp"][n]),
+                                            q.lst([q.zlist([dc.cid(x) for x in l]) for l in links]))
+                   for n, k, links in o["graph"]["nodes"]])
+    agents = q.lst(["(mkAg %s %s %s %s %s %s)" % (
+        q.z(dc.aid(a["name"])), q.z(a["capacity"]), q.z(a["dhost"]),
+        zz(a["host"].items(), lambda k: q.z(dc.cid(k))), q.z(a["droute"]),
+        zz(a["routes"].items(), lambda k: q.z(dc.aid(k)))) for a in c["agents"]])
+    load = q.lst([q.pair(q.pair(q.z(dc.cid(k.split("|")[0])), q.z(dc.cid(k.split("|")[1]))), q.z(v))
+                  for k, v in c["load"].items()])
+    must = q.lst([q.pair(q.z(dc.aid(a)), q.zlist([dc.cid(x) for x in l]))
+                  for a, l in (c.get("must_host") or {}).items()])
+    hw = q.lst([q.pair(q.z(dc.cid(a)), q.zlist([dc.cid(x) for x in l]))
+                for a, l in (o.get("host_with") or {}).items()])
+    return "(mkInst %s %s %s %s %s %s)" % (nodes, agents, load, q.z(c["dload"]), must, hw)
+
+
+def obs_term(res):
+    if "mapping" in res:
+        pairs = sorted((dc.cid(x), dc.aid(a)) for a, l in res["mapping"].items() for x in l)
+        return "(OMap %s)" % q.lst([q.pair(q.z(x), q.z(a)) for x, a in pairs])
+    if res["error"] == "ImpossibleDistributionException":
+        return "OImpossible"
+    return "OError"
+
+
+def coq_case(c, o):
+    if c["method"] not in COQ_METHOD or c.get("via") != "api":
+        return None
+    rnd = [c["rnd"][i % dc.NRND] for i in range(o["nrnd"])]
+    shuf = q.lst([q.zlist([dc.cid(x) for x in l]) for l in o["shuffles"]])
+    choices = q.lst([q.nat(i) for i in o["choices"]])
+    return "(mkCase %s %s %s %s %s %s)" % (COQ_METHOD[c["method"]], inst_term(c, o), q.zlist(rnd),
+                                          shuf, choices, obs_term(o["result"]))
 
 
 def nontrivial(c, o):
